@@ -407,6 +407,33 @@ Family const &container_family()
       cx.result(res, n == 0 ? std::vector<int>{} : std::vector<int>{0});
       cx.expect_state(v, iota(n == 0 ? 0 : n - 1, 1), "container");
     }));
+    // the same with an element type whose move constructor may throw (a copy there would mean the
+    // library used move_if_noexcept / a copy instead of the documented move)
+    r.push_back(entry0("container::pop_back (potentially throwing move)", seq, [](Ctx &cx, int shape) {
+      int const n = seq_n(shape);
+      std::vector<tracked_mt> v;
+      v.reserve(8);
+      for (int i = 0; i < n; ++i) v.emplace_back(i);
+      cx.arg_mutated(v, "container");
+      cx.key_fn = "container::pop_back";
+      cx.begin();
+      fcppt::optional::object<tracked_mt> res = fcppt::container::pop_back(v);
+      cx.end();
+      cx.result(res, n == 0 ? std::vector<int>{} : std::vector<int>{n - 1});
+      cx.expect_state(v, iota(n == 0 ? 0 : n - 1), "container");
+    }));
+    r.push_back(entry0("container::pop_front (potentially throwing move)", seq, [](Ctx &cx, int shape) {
+      int const n = seq_n(shape);
+      std::list<tracked_mt> v;
+      for (int i = 0; i < n; ++i) v.emplace_back(i);
+      cx.arg_mutated(v, "container");
+      cx.key_fn = "container::pop_front";
+      cx.begin();
+      fcppt::optional::object<tracked_mt> res = fcppt::container::pop_front(v);
+      cx.end();
+      cx.result(res, n == 0 ? std::vector<int>{} : std::vector<int>{0});
+      cx.expect_state(v, iota(n == 0 ? 0 : n - 1, 1), "container");
+    }));
     // ---- get_or_insert (documented mutation): shape = number of entries, key 1 present iff n > 1
     r.push_back(entry0("container::get_or_insert", seq, [](Ctx &cx, int shape) {
       int const n = seq_n(shape);
